@@ -321,3 +321,85 @@ func kindOf(l gts.Location) string {
 
 // locEq: structural equality via the canonical encoding.
 func locEq(a, b gts.Location) bool { return encLoc(a) == encLoc(b) }
+
+// specWithin: an independent statement of "every part of the location lies within [lo, hi]"
+// (the survival test of Erase): all leaves, whatever their order, strand or nesting; a
+// zero-length site counts by its position.  Does not call gts.LocationWithin.
+func specWithin(l gts.Location, lo, hi int) bool {
+	if hi < lo {
+		lo, hi = hi, lo
+	}
+	leaf := func(s, e int) bool {
+		if e < s {
+			s, e = e, s
+		}
+		return lo <= s && e <= hi
+	}
+	switch v := l.(type) {
+	case gts.Between:
+		return leaf(int(v), int(v))
+	case gts.Point:
+		return leaf(int(v), int(v)+1)
+	case gts.Ranged:
+		return leaf(v.Start, v.End)
+	case gts.Ambiguous:
+		return leaf(v.Start, v.End)
+	case gts.Joined:
+		for _, u := range v {
+			if !specWithin(u, lo, hi) {
+				return false
+			}
+		}
+		return true
+	case gts.Ordered:
+		for _, u := range v {
+			if !specWithin(u, lo, hi) {
+				return false
+			}
+		}
+		return true
+	case gts.Complemented:
+		return specWithin(v.Location, lo, hi)
+	}
+	panic(fmt.Sprintf("specWithin: unknown location %T", l))
+}
+
+// specOverlap: some leaf shares a residue (or, for a zero-length site, lies strictly inside) with [lo, hi)
+func specOverlap(l gts.Location, lo, hi int) bool {
+	if hi < lo {
+		lo, hi = hi, lo
+	}
+	leaf := func(s, e int) bool {
+		if e < s {
+			s, e = e, s
+		}
+		return s < hi && lo < e
+	}
+	switch v := l.(type) {
+	case gts.Between:
+		return leaf(int(v), int(v))
+	case gts.Point:
+		return leaf(int(v), int(v)+1)
+	case gts.Ranged:
+		return leaf(v.Start, v.End)
+	case gts.Ambiguous:
+		return leaf(v.Start, v.End)
+	case gts.Joined:
+		for _, u := range v {
+			if specOverlap(u, lo, hi) {
+				return true
+			}
+		}
+		return false
+	case gts.Ordered:
+		for _, u := range v {
+			if specOverlap(u, lo, hi) {
+				return true
+			}
+		}
+		return false
+	case gts.Complemented:
+		return specOverlap(v.Location, lo, hi)
+	}
+	panic(fmt.Sprintf("specOverlap: unknown location %T", l))
+}
